@@ -95,6 +95,9 @@ macro_rules! vpv_native {
         }
     };
 }
+/// the thorough tier enlarges the enumerated input spaces of native cells (the bound actually used is printed by the cell)
+#[cfg(vpv_replay)]
+pub fn vpv_thorough() -> bool { std::env::var("VPV_TIER").map(|t| t == "thorough").unwrap_or(false) }
 #[cfg(vpv_replay)]
 pub fn vpv_enum_try<L: Fn() -> String, F: FnOnce() -> bool>(label: L, f: F) -> bool {
     match std::panic::catch_unwind(std::panic::AssertUnwindSafe(f)) {
